@@ -974,6 +974,49 @@ fn run_op(a: &[&str]) -> R {
             }
             out.join(" ")
         }
+        ["thr", exp, role, k, ech, dch] => {
+            // the two halves are moved to two OS threads, each owning one half (C12: schedules are tests)
+            let o = hdr_new(exp, role, arr(k)?)?;
+            rand::verif_inject(&[]);
+            let _ = rand::verif_take_log();
+            let ech: Vec<Vec<u8>> = if *ech == "-" { vec![] } else { ech.split(',').map(unhex).collect() };
+            let dch: Vec<Vec<u8>> = if *dch == "-" { vec![] } else { dch.split(',').map(unhex).collect() };
+            let mut split = o.clone();
+            hdr_op(&mut split, "split")?;
+            fn run_chunks(mut f: impl FnMut(&mut [u8]), chunks: Vec<Vec<u8>>) -> String {
+                let mut out = Vec::new();
+                for mut c in chunks {
+                    f(&mut c);
+                    std::thread::yield_now();
+                    out.push(hex(&c));
+                }
+                if out.is_empty() { "-".to_string() } else { out.join(",") }
+            }
+            let (eo, dout) = match split {
+                HObj::VHalves(mut e, mut d) => {
+                    let t1 = std::thread::spawn(move || run_chunks(|c| e.encrypt(c), ech));
+                    let t2 = std::thread::spawn(move || run_chunks(|c| d.decrypt(c), dch));
+                    (t1.join().map_err(|_| "panic".to_string())?, t2.join().map_err(|_| "panic".to_string())?)
+                }
+                HObj::THalves(mut e, mut d) => {
+                    let t1 = std::thread::spawn(move || run_chunks(|c| e.encrypt(c), ech));
+                    let t2 = std::thread::spawn(move || run_chunks(|c| d.decrypt(c), dch));
+                    (t1.join().map_err(|_| "panic".to_string())?, t2.join().map_err(|_| "panic".to_string())?)
+                }
+                HObj::WCliHalves(mut e, mut d) => {
+                    let t1 = std::thread::spawn(move || run_chunks(|c| e.encrypt(c), ech));
+                    let t2 = std::thread::spawn(move || run_chunks(|c| d.decrypt(c), dch));
+                    (t1.join().map_err(|_| "panic".to_string())?, t2.join().map_err(|_| "panic".to_string())?)
+                }
+                HObj::WSrvHalves(mut e, mut d) => {
+                    let t1 = std::thread::spawn(move || run_chunks(|c| e.encrypt(c), ech));
+                    let t2 = std::thread::spawn(move || run_chunks(|c| d.decrypt(c), dch));
+                    (t1.join().map_err(|_| "panic".to_string())?, t2.join().map_err(|_| "panic".to_string())?)
+                }
+                _ => return Err("bad-op".into()),
+            };
+            format!("{} {}", eo, dout)
+        }
         ["w.sweep", k, lo, hi, opc] => {
             let k: [u8; 40] = arr(k)?;
             let (lo, hi, opc): (u32, u32, u16) = (num(lo)?, num(hi)?, num(opc)?);
@@ -1115,6 +1158,71 @@ fn run_op(a: &[&str]) -> R {
                 format!("ok {} {}", hex(&proof), ok as u8)
             }
         },
+        ["rng.stat", site, n] => {
+            // C15 statistical test (labelled as a test): the shim passes through to the real ThreadRng
+            let n: usize = num(n)?;
+            rand::verif_pass_through(true);
+            let r = catch_unwind(AssertUnwindSafe(|| -> Result<Vec<Vec<u8>>, String> {
+                let mut vals: Vec<Vec<u8>> = Vec::with_capacity(n);
+                let un = NormalizedString::new("ALICE").unwrap();
+                let pw = NormalizedString::new("PASSWORD").unwrap();
+                match *site {
+                    "salt" => for _ in 0..n { vals.push(SrpVerifier::from_username_and_password(un.clone(), pw.clone()).salt().to_vec()); },
+                    "b" => for _ in 0..n {
+                        let v = SrpVerifier::from_database_values(un.clone(), [3u8; 32], [0u8; 32]);
+                        vals.push(v.into_proof().server_public_key().to_vec());
+                    },
+                    "a" => for _ in 0..n {
+                        let b = PublicKey::from_le_bytes([5u8; 32]).unwrap();
+                        let c = SrpClientChallenge::new(un.clone(), pw.clone(), wow_srp::GENERATOR, wow_srp::LARGE_SAFE_PRIME_LITTLE_ENDIAN, b, [0u8; 32]);
+                        vals.push(c.client_public_key().to_vec());
+                    },
+                    "chal" | "refresh" | "cd" => {
+                        let (mut srv, cl) = full_login("414c494345", "50415353")?;
+                        for i in 0..n {
+                            match *site {
+                                "chal" => { let (s2, _) = full_login("414c494345", "50415353")?; vals.push(s2.reconnect_challenge_data().to_vec()); }
+                                "refresh" => {
+                                    // alternate accepted and rejected attempts: the challenge is replaced after both
+                                    let r = cl.calculate_reconnect_values(*srv.reconnect_challenge_data());
+                                    let mut proof = r.proof;
+                                    if i % 2 == 1 { proof[0] ^= 1; }
+                                    let ok = srv.verify_reconnection_attempt(r.challenge_data, proof);
+                                    if ok != (i % 2 == 0) { return Err("refresh verdict".into()); }
+                                    vals.push(srv.reconnect_challenge_data().to_vec());
+                                }
+                                _ => vals.push(cl.calculate_reconnect_values([7u8; 16]).challenge_data.to_vec()),
+                            }
+                        }
+                    }
+                    "seedv" => for _ in 0..n { vals.push(vanilla_header::ProofSeed::new().seed().to_le_bytes().to_vec()); },
+                    "seedt" => for _ in 0..n { vals.push(tbc_header::ProofSeed::new().seed().to_le_bytes().to_vec()); },
+                    "seedw" => for _ in 0..n { vals.push(wrath_header::ProofSeed::new().seed().to_le_bytes().to_vec()); },
+                    "integsalt" => for _ in 0..n { vals.push(integrity::get_salt_value().to_vec()); },
+                    "pinsalt" => for _ in 0..n { vals.push(pin::get_pin_salt().to_vec()); },
+                    "pinseed" => for _ in 0..n { vals.push(pin::get_pin_grid_seed().to_le_bytes().to_vec()); },
+                    "mcseed" => for _ in 0..n { vals.push(matrix_card::get_matrix_card_seed().to_le_bytes().to_vec()); },
+                    "mcdigits" => for _ in 0..n { vals.push(matrix_card::MatrixCard::new(2, 4, 4).data().to_vec()); },
+                    _ => return Err("bad-op".into()),
+                }
+                Ok(vals)
+            }));
+            rand::verif_pass_through(false);
+            let _ = rand::verif_take_log();
+            let vals = match r { Ok(Ok(v)) => v, Ok(Err(e)) => return Err(e), Err(_) => return Err("panic".into()) };
+            let mut set = std::collections::HashSet::new();
+            for v in &vals { set.insert(v.clone()); }
+            let width = vals.first().map(|v| v.len()).unwrap_or(0);
+            let mut minvals = usize::MAX;
+            let mut maxbyte = 0u8;
+            for pos in 0..width {
+                let mut seen = [false; 256];
+                for v in &vals { seen[v[pos] as usize] = true; if v[pos] > maxbyte { maxbyte = v[pos]; } }
+                let c = seen.iter().filter(|x| **x).count();
+                if c < minvals { minvals = c; }
+            }
+            return Ok(format!("stat {} n={} distinct={} width={} min_values_per_byte={} max_byte={}", site, vals.len(), set.len(), width, minvals, maxbyte));
+        }
         ["rng.pinseed"] => format!("{}", pin::get_pin_grid_seed()),
         ["rng.pinsalt"] => hex(&pin::get_pin_salt()),
         ["rng.integsalt"] => hex(&integrity::get_salt_value()),
